@@ -253,6 +253,11 @@ class NPProxy:
             return a.log1p()
         return self._r.log1p(a, **kw)
 
+    def log10(self, a, **kw):
+        if isinstance(a, SymReal):
+            return a.log10()
+        return self._r.log10(a, **kw)
+
     def abs(self, a, **kw):
         if isinstance(a, SymReal):
             return abs(a)
